@@ -3,7 +3,7 @@
 use crate::sched::{atrace_push, atrace_take, run_scheduled_opt};
 use crate::world::*;
 use std::sync::Arc;
-use tower_resilience_retry::{AimdBudget, RetryBudget, TokenBucketBudget};
+use tower_resilience_retry::{AimdBudget, RetryBudget, RetryBudgetBuilder, TokenBucketBudget};
 
 pub struct Adapter {
     kv: Kv,
@@ -17,7 +17,47 @@ impl Adapter {
 }
 
 
+/// `chain=<setter>.<setter>…` (or `chain=-` for none): the budget is built through `RetryBudgetBuilder` with the setters
+/// applied in the order given — token bucket: `i<n>` initial_tokens, `m<n>` max_tokens, `r<n>` tokens_per_second;
+/// AIMD: `n<n>` min_budget, `x<n>` max_budget, `d<n>` deposit_amount, `w<n>` withdraw_amount, `f<p>_<q>` decrease_factor.
+/// Settings the chain does not name keep the builder's defaults.
+fn build_chain(chain: &str, aimd: bool) -> Arc<dyn RetryBudget> {
+    let items: Vec<&str> = chain.split('.').filter(|x| !x.is_empty() && *x != "-").collect();
+    let num = |x: &str| x[1..].parse::<usize>().unwrap_or(0);
+    if aimd {
+        let mut b = RetryBudgetBuilder::new().aimd();
+        for it in items {
+            b = match &it[..1] {
+                "n" => b.min_budget(num(it)),
+                "x" => b.max_budget(num(it)),
+                "d" => b.deposit_amount(num(it)),
+                "w" => b.withdraw_amount(num(it)),
+                "f" => {
+                    let (p, q) = it[1..].split_once('_').unwrap_or(("1", "2"));
+                    b.decrease_factor(p.parse::<f64>().unwrap_or(1.0) / q.parse::<f64>().unwrap_or(2.0))
+                }
+                _ => b,
+            };
+        }
+        b.build()
+    } else {
+        let mut b = RetryBudgetBuilder::new().token_bucket();
+        for it in items {
+            b = match &it[..1] {
+                "i" => b.initial_tokens(num(it)),
+                "m" => b.max_tokens(num(it)),
+                "r" => b.tokens_per_second(num(it) as f64),
+                _ => b,
+            };
+        }
+        b.build()
+    }
+}
+
 fn build(kv: &Kv, aimd: bool) -> (Arc<dyn RetryBudget>, Option<Arc<AimdBudget>>) {
+    if let Some(chain) = kv.get("chain") {
+        return (build_chain(chain, aimd), None);
+    }
     if aimd {
                     let num = kv.u64("fnum", 1) as f64;
                     let den = kv.u64("fden", 2) as f64;
